@@ -36,8 +36,9 @@ Qs(w) == IF w THEN {5, 7, 11} ELSE {5, 7}
 
 Runs_sch(w) ==
   { [sys |-> "sch", par |-> [q |-> q, idrep |-> id], x |-> x, a |-> a, c |-> c] :
-      q \in Qs(w), id \in BOOLEAN, x \in 1..10, a \in 1..10, c \in 0..10 }
-Dom_sch(w) == { r \in Runs_sch(w) : r.x < r.par.q /\ r.a < r.par.q /\ r.c < r.par.q }
+      q \in Qs(w), id \in BOOLEAN, x \in 0..10, a \in 1..10, c \in 0..10 }
+(* x = 0: X is the identity, a point only where the identity has coordinates (edwards25519) *)
+Dom_sch(w) == { r \in Runs_sch(w) : r.x < r.par.q /\ r.a < r.par.q /\ r.c < r.par.q /\ (r.x = 0 => r.par.idrep) }
 
 QsV(w) == IF w THEN {5, 7} ELSE {5}
 Dom_schv(w) ==
